@@ -115,6 +115,20 @@ def events(db, f, summaries=None, depth=0):
                     continue
                 if n["method"] == "drain" and "RangeFull" not in render(n["args"][0]):
                     continue
+                # clearing the ELEMENTS of a container empties it only if every element is cleared: a clear that sits under a
+                # condition inside the per-element loop (e.g. only rows below some capacity) leaves the other elements' data behind
+                r0, _ = root(n["recv"])
+                bd0 = b.get(r0[1]) if r0 and r0[0] == "local" else None
+                if bd0 and bd0[0] in ("for", "closure-param"):
+                    from ..db import path_conditions as _pc_
+                    loop_body = None
+                    for p_ in reversed(ps):
+                        if p_.get("k") == "Match" and p_.get("src") == "ForLoopDesugar" or p_.get("k") == "Closure":
+                            loop_body = p_
+                            break
+                    conds = [c_ for c_, pol_ in (_pc_(n["id"], loop_body) or []) if isinstance(c_, dict)] if loop_body is not None else []
+                    if conds:
+                        continue
                 out.append(("kill", r, n["method"], n))
         elif k == "Assign":
             r, row = root(n["l"])
